@@ -40,9 +40,6 @@ def pipeline_input(rng, tier, kind):
     if rng.random() < 0.8:
         o[1] = rng.choice([1, 2, 3, 7])          # many sections per chromosome
     o[6] = sort_all
-    if kind >= 2 and not o[5]:
-        # the bigBed model is not used here; keep the zoom choice independent of compressed sizes anyway
-        pass
     ips = o[1]
     sizes = []; inp = []
     tags = ["kind=%d" % kind, zm, "compress=%d" % o[0], "ips=%d" % ips, "bs=%d" % o[2], "chroms=%d" % nchrom]
@@ -82,7 +79,7 @@ class C11(Prop):
     NEED_BINS = True
     PER_CASE_TIMEOUT = 150.0
     THEOREMS = ["C11_fifo_order", "C11_splice", "C11_file_prefix", "C11_schedule_independent", "C11_offsets_address_sections",
-                "C11_splice_bigwig", "C11_progress", "C11_completion", "C11_await_never_blocks", "C11_buffer_contract", "C11_lanes_splice",
+                "C11_splice_bigwig", "C11_splice_bigbed", "C11_progress", "C11_completion", "C11_await_never_blocks", "C11_buffer_contract", "C11_lanes_splice",
                 "C11_converter_order", "C11_converter_progress", "C11_converter_completion", "C11_converter_await_never_blocks"]
     RULE = ("inputs: 1-10 chromosomes (names whose input, lexicographic and id order differ), per chromosome up to 40 sorted items, "
             "items_per_slot mostly 1/2/3/7 so that a chromosome has many sections, block sizes 2..256, zoom modes auto/small/manual/none, "
@@ -94,8 +91,9 @@ class C11(Prop):
             "extra: the Coq pipeline machine executed on the cases' real section data under random schedules; the built "
             "bigwigtobedgraph / bigbedtobed binaries with -t 1 (single-threaded path) vs -t 2..16, --inmemory, delay seeds; "
             "non-trivial = at least 2 chromosomes or 2 sections; distinct = distinct case text")
-    CORRESPONDENCE = ("bytes written under the reference configuration (uncompressed bigWig) = bytes of Model/BigWigWrite.v; every other "
-                      "configuration's sink = the reference sink (all kinds)")
+    CORRESPONDENCE = ("bytes written under the reference configuration, uncompressed files: bigWig = bytes of Model/BigWigWrite.v, "
+                      "bigBed = bytes of Model/BigBedWrite.v (bb_write / bb_write_multipass with Model/BedSweep.v's summary and zoom levels, "
+                      "through EntryBed.bed_write_model); every other configuration's sink = the reference sink (all kinds, compressed too)")
     TRUSTED = ["harness/src/bin/c11.rs compares the sinks and prints the first difference",
                "verif_delay hook (cfg bigtools_verif) in /repo: sleeps/yields only",
                "tokio, futures/crossbeam channels, AtomicCell, Condvar: assumed to implement the transitions of Model/Pipeline.v (validated by the runs)"]
@@ -119,16 +117,8 @@ class C11(Prop):
         return "chroms=1" not in tags or "sections~1" not in tags
 
     def same(self, case, impl, model):
-        if impl == model:
-            return True
-        try:
-            c = parse_sx(case); i = parse_sx(impl); m = parse_sx(model)
-        except Exception:
-            return False
-        if c[0] >= 2:
-            # no bigBed byte model here: only "every configuration equals the reference" is compared
-            return isinstance(i, list) and len(i) == 3 and i[0] in (0, 1) and i[2] == m[2]
-        return False
+        # exact text for every kind: verdict, the bytes of an uncompressed file (bigWig and bigBed), one () per configuration
+        return impl == model
 
     def shrink_candidates(self, case_text):
         c = parse_sx(case_text)
